@@ -679,6 +679,9 @@ def execute_contract(sc):
         ex = {'r': rmax, 'lamb': sc['lamb']}
         if g_.random() < 0.5:
             ex['r_add'] = int(g_.integers(1, 3))          # growth per sweep smaller than the cap
+        u_ = g_.random()
+        if u_ < 0.3:
+            ex['e_adap'] = [1e-12, 1e-6, 0.3][int(g_.integers(0, 3))]     # truncation threshold of the adaptive step: the cap holds for any value
         o = run_job(sc, I, y, None, Y0, int(g_.integers(3, 6)), extra=ex)
         runs += 1
         P('rank_adaptive')
